@@ -341,6 +341,18 @@ func scenarios() []hx.Scenario {
 			add(scen{c: c, adders: [][]int{g}, consumer: 'p', timeline: true}, 2, mc.TimerGo123, len(g) > 3)
 		}
 	}
+	// (a') longer histories over a small gap alphabet: a first busy period that
+	// reaches MaxDelay, an idle gap, then a second busy period (the window must
+	// start again from InitialDelay)
+	for _, c := range []cfg{{2, 8, 0}, {1, 4, 0}, {1, 4, 2}} {
+		for _, g := range seqs([]int{1, 2, 9}, 6) {
+			if len(g) < 5 {
+				continue
+			}
+			g[0] = 0
+			add(scen{c: c, adders: [][]int{g}, consumer: 'p', timeline: true}, 1, mc.TimerGo123, len(g) > 5)
+		}
+	}
 	// (b) race mode: adders x ender x consumer
 	raceCfgs := []cfg{{2, 4, 0}, {2, 4, 1}, {2, 4, 2}}
 	addScripts := [][][]int{
